@@ -7,8 +7,12 @@ import random
 import subprocess
 import sys
 import threading
+import copy
+import re
+import time
 
 import apicheck as A
+import procstate as PS
 import cases as C
 import docx as D
 from common import run_driver, VERIF, REPO
@@ -51,9 +55,468 @@ def result_of(data, opts):
     return {"value": r.get("value"), "messages": A.norm_messages(r.get("messages", [])) if "messages" in r else None, "err": r.get("err")}
 
 
+def convert_only(data, opts):
+    """result_of without the other API calls run_real makes (raw text, embedded style map): same shape of answer"""
+    import mammoth
+    try:
+        with D.time_limit():
+            try:
+                r = mammoth.convert_to_html(io.BytesIO(data), **D.real_options(opts, []))
+                return {"value": r.value, "messages": A.norm_messages([m.message for m in r.messages]), "err": None}
+            except Exception as e:  # noqa
+                return {"value": None, "messages": None, "err": D.err_kind(e)}
+    except D.DidNotTerminate:
+        return {"value": None, "messages": None, "err": "DidNotTerminate"}
+
+
 def default_map_fingerprint():
     from mammoth import options
     return repr([(repr(s.document_matcher), repr(s.html_path)) for s in options._default_style_map])
+
+
+# ---------------------------------------------------------------------------------------------------------------------
+# Families: packages that share each part byte for byte while differing elsewhere
+# ---------------------------------------------------------------------------------------------------------------------
+# What a part of a package MEANS depends on other parts (numbering.xml on styles.xml through w:numStyleLink, the body on
+# styles / numbering / relationships / content types / notes / media, a notes part on its relationships ...).  Any
+# memoisation keyed on less than everything the result depends on is invisible unless two packages of one history agree
+# on the key and differ in the rest.  A family is built around a base package A:
+#   * for every part P and for several kinds of definition inside P: A with that one definition changed ("mutant": shares
+#     every OTHER part with A, byte for byte),
+#   * for every part P: A with P replaced by the part of the same name of another package B ("transplant": shares P with
+#     B and everything else with A), together with B itself.
+# The members are converted back to back, in different orders; each call must give the answer of that call on its own.
+
+FAMILY_PROFILE = dict(PROFILE, p_numbering=0.75, p_pstyle=0.7, p_image=0.35, p_note=0.25, p_hyperlink=0.3, p_comment=0.15, p_table=0.15,
+                      optional_absent=0.03, max_blocks=4, p_embedded_map=0.3,
+                      numid_pool=["3", "3", "3", "3", "1", "2", "4", "99"], numstyle_numids=["1", "1", "2", "4", "5", "99"],
+                      numlink_pool=["ListNum", "ListNum", "ListNum", "ListNum", "NoSuchNumStyle", "ListNoNum"])
+
+
+def part_kind(name):
+    return re.sub(r"\d+", "", name.rsplit("/", 1)[-1])
+
+
+def walk(tree, path=()):
+    """(path, element) for every element of an abstract XML tree"""
+    yield path, tree
+    for i, c in enumerate(tree[2]):
+        if not isinstance(c, str):
+            for x in walk(c, path + (i,)):
+                yield x
+
+
+def at(tree, path):
+    for i in path:
+        tree = tree[2][i]
+    return tree
+
+
+def _disc(e, k):
+    """what else identifies the kind of definition an attribute is: the type of a relationship for its target"""
+    if e[0] == "relationships:Relationship" and k == "Target":
+        return k + " of " + dict((a, b) for a, b in e[1]).get("Type", "?").rsplit("/", 1)[-1]
+    return k
+
+
+def slots_of(part):
+    """group -> [slot]: the places of a part where one definition can be changed.  Groups: ("attr", part kind, element,
+    attribute), ("text", part kind, element), ("drop", part kind, child element)"""
+    kind = part_kind(part["name"])
+    out = {}
+    for path, e in walk(part["xml"]):
+        for ai, (k, _v) in enumerate(e[1]):
+            out.setdefault(("attr", kind, e[0], _disc(e, k)), []).append((path, ai))
+        for ci, c in enumerate(e[2]):
+            if isinstance(c, str):
+                out.setdefault(("text", kind, e[0]), []).append((path, ci))
+            else:
+                out.setdefault(("drop", kind, c[0]), []).append((path, ci))
+    return out
+
+
+def vocabulary(packages):
+    """group -> values seen at such a slot anywhere in the given packages (replacement values stay inside what the
+    generator writes at that kind of place)"""
+    voc = {}
+    for p in packages:
+        for part in p["parts"]:
+            if "xml" not in part:
+                continue
+            for g, sl in slots_of(part).items():
+                if g[0] == "drop":
+                    continue
+                for path, i in sl:
+                    e = at(part["xml"], path)
+                    voc.setdefault(g, set()).add(e[1][i][1] if g[0] == "attr" else e[2][i])
+    return {g: sorted(v) for g, v in voc.items()}
+
+
+def mutants_of_part(rng, part, voc, n_defs=4, n_drops=2):
+    """copies of the part with ONE definition changed each: one per group of slots (all kinds of definition are
+    visited, however rare their slots are), at most n_defs value changes and n_drops removals"""
+    if "xml" not in part:
+        data = bytes.fromhex(part["hex"])
+        if part["name"] == "mammoth/style-map":
+            lines = data.decode("utf-8").split("\n")
+            data2 = "\n".join(lines[:-1] if len(lines) > 1 else lines + ["u => em"]).encode("utf-8")
+        else:
+            data2 = data[:-1] if (data and rng.random() < 0.5) else data + b"\x00"
+        return [({"name": part["name"], "hex": data2.hex()}, ("bytes", part_kind(part["name"])))]
+    groups = slots_of(part)
+    # (the TYPE of a relationship is left alone: a styles / numbering relationship pointing at a picture is a corrupt
+    # package, not a sibling; for the same reason a target is only replaced by a target of a relationship of the same type)
+    defs = sorted(g for g in groups if g[0] != "drop" and g[2:] != ("relationships:Relationship", "Type"))
+    drops = sorted(g for g in groups if g[0] == "drop")
+    rng.shuffle(defs)
+    rng.shuffle(drops)
+    out = []
+    for g in defs:
+        if len([1 for _p, gg in out if gg[0] != "drop"]) >= n_defs:
+            break
+        path, i = rng.choice(groups[g])
+        tree = copy.deepcopy(part["xml"])
+        e = at(tree, path)
+        cur = e[1][i][1] if g[0] == "attr" else e[2][i]
+        others = [v for v in voc.get(g, []) if v != cur]
+        present = [(at(part["xml"], p_)[1][i_][1] if g[0] == "attr" else at(part["xml"], p_)[2][i_]) for p_, i_ in groups[g]]
+        if g[0] == "attr" and len(present) >= 2 and len(set(present)) == len(present):
+            # the values of this attribute are pairwise distinct in the part (relationship ids, style ids, note ids ...):
+            # they identify things; a duplicate would make the package ambiguous (corrupt), a new value renames the thing
+            others = [v for v in others if v not in present]
+        if not others:
+            if g[0] != "text":
+                continue
+            others = [cur + "~"]
+        new = rng.choice(others)
+        if g[0] == "attr":
+            e[1][i][1] = new
+        else:
+            e[2][i] = new
+        out.append(({"name": part["name"], "xml": tree}, g))
+    for g in drops[:n_drops]:
+        path, i = rng.choice(groups[g])
+        tree = copy.deepcopy(part["xml"])
+        del at(tree, path)[2][i]
+        out.append(({"name": part["name"], "xml": tree}, g))
+    return out
+
+
+def family_of(rng, base, donors, voc):
+    """[member]: member = {"parts", "options", "how"}; the base comes first"""
+    members = [{"parts": base["parts"], "options": base["options"], "how": "base"}]
+    for k, part in enumerate(base["parts"]):
+        for mpart, g in mutants_of_part(rng, part, voc):
+            parts = list(base["parts"])
+            parts[k] = mpart
+            members.append({"parts": parts, "options": base["options"], "how": "mutant %s" % (g,)})
+        cands = [d for d in donors if d is not base and any(q["name"] == part["name"] and q != part for q in d["parts"])]
+        if cands:
+            d = rng.choice(cands)
+            parts = list(base["parts"])
+            parts[k] = next(q for q in d["parts"] if q["name"] == part["name"])
+            # under the base's options and under the donor's
+            members.append({"parts": parts, "options": base["options"] if rng.random() < 0.7 else d["options"], "how": "transplant of %s" % part["name"]})
+            if not any(m["parts"] is d["parts"] for m in members):
+                members.append({"parts": d["parts"], "options": d["options"], "how": "donor"})
+    return members
+
+
+# ---------------------------------------------------------------------------------------------------------------------
+# The fresh-state oracle: "this call on its own" computed by the real code in an interpreter that never converted
+# anything (forked children of one warm process, harness/fresh_worker.py)
+# ---------------------------------------------------------------------------------------------------------------------
+
+def fresh_calls(jobs, docs):
+    """jobs: [{"steps": [[key, options], ...], "limit": n|None}], docs: {key: bytes} -> [[result per step] | None]"""
+    if not jobs:
+        return []
+    used = {k for j in jobs for k, _o in j["steps"]}
+    spec = os.path.join(VERIF, "work", "c15_fresh_%d_%d.json" % (os.getpid(), int(time.time() * 1000) % 100000))
+    with open(spec, "w") as f:
+        json.dump({"docs": {k: docs[k].hex() for k in used}, "jobs": jobs, "parallel": min(6, max(1, (os.cpu_count() or 2) // 2))}, f)
+    try:
+        p = subprocess.run([sys.executable, os.path.join(VERIF, "harness", "fresh_worker.py"), REPO, spec], capture_output=True, text=True, timeout=900)
+        res = json.loads(p.stdout)
+    except Exception as e:  # noqa
+        raise_infra("fresh-state oracle failed: %r" % (e,))
+    finally:
+        os.unlink(spec)
+    return [r.get("results") for r in res]
+
+
+def raise_infra(msg):
+    from common import Infra
+    raise Infra(msg)
+
+
+def same(r, exp):
+    return exp is not None and (r["value"], r["messages"], r["err"]) == (exp.get("value"), exp.get("messages"), exp.get("err"))
+
+
+def run_families(out, rng, seed, tier, model_ok, nfam, earlier=()):
+    """-> (number of members, number of calls)"""
+    bases = []
+    for i in range(nfam):
+        g, parts, opts = C.api_case(seed * 1000003 + 500000 + i, FAMILY_PROFILE)
+        opts.pop("format", None)
+        bases.append({"parts": parts, "options": opts})
+    voc = vocabulary(bases)
+    fams = [family_of(rng, b, bases, voc) for b in bases]
+    flat = [m for fam in fams for m in fam]
+    for m in flat:
+        m["data"] = D.build_docx(m["parts"])
+    models = run_driver([{"op": "api", "parts": m["parts"], "options": m["options"]} for m in flat], tag="apiC15f") if model_ok else [None] * len(flat)
+    for m, mo in zip(flat, models):
+        m["model"] = None if (mo is None or "error" in mo) else {"value": mo.get("value"), "messages": mo.get("messages"), "err": mo.get("err")}
+    if not model_ok:
+        docs = {str(i): m["data"] for i, m in enumerate(flat)}
+        for m, r in zip(flat, fresh_calls([{"steps": [[str(i), m["options"]]]} for i, m in enumerate(flat)], docs)):
+            m["model"] = r[0] if r else None
+    calls = 0
+    stop = False
+    for fi, fam in enumerate(fams):
+        rest = list(range(1, len(fam)))
+        rng.shuffle(rest)
+        order = [0] + rest + [0] + rest[::-1]
+        for pos, mi in enumerate(order):
+            m = fam[mi]
+            # the second visit of a member also makes the other API calls on the file (raw text, embedded style map)
+            r = (result_of if pos > len(fam) else convert_only)(m["data"], m["options"])
+            calls += 1
+            out.count(key="family-%d-%d-%d" % (seed, fi, pos), nontrivial=pos > 0)
+            if m["model"] is None or same(r, m["model"]):
+                continue
+            # differs from the specification value of the call on its own: what does the REAL code answer on its own?
+            docs = {str(j): fam[j]["data"] for j in range(len(fam))}
+            alone = fresh_calls([{"steps": [[str(mi), m["options"]]]}], docs)[0]
+            alone = alone[0] if alone else None
+            if alone is not None and same(r, alone):
+                # the library computes something else than the model on this input, history or not: a broken tie
+                if len(out.correspondence_breaks) < 3:
+                    from common import write_replay
+                    path = write_replay("C15", dict(property="C15", kind="correspondence-break", what="the conversion result differs from the Lean model's on this input in a fresh interpreter too (not an effect of the history)",
+                                                    case={"kind": "api", "parts": m["parts"], "options": m["options"], "how": m["how"]}, expected=m["model"], actual=r))
+                    out.correspondence_breaks.append("whole-result correspondence with the Lean model broke on input %s" % path)
+                m["model"] = alone
+                continue
+            exp = alone if alone is not None else m["model"]
+            # smallest history that shows it: one earlier member of the family, then this call (each tried in a fresh interpreter)
+            hist = [fam[j] for j in order[:pos + 1]]
+            prev = []
+            for j in order[:pos][::-1] + list(range(len(fam))):      # (a donor may have been converted with an earlier family)
+                if j not in prev and j != mi:
+                    prev.append(j)
+            pairs = fresh_calls([{"steps": [[str(j), fam[j]["options"]], [str(mi), m["options"]]]} for j in prev[:100]], docs)
+            for j, pr in zip(prev, pairs):
+                if pr and not same(pr[1], exp):
+                    hist = [fam[j], m]
+                    break
+            if len(hist) != 2:
+                # not an effect of this family alone: the members of the families converted before it, latest first, then
+                # whatever the caller converted before the families
+                older = ([x for f2 in fams[:fi] for x in f2][::-1] + [dict(x, how="a document of the earlier histories") for x in list(earlier)[::-1]])[:900]
+                docs2 = dict({"o%d" % k: x["data"] for k, x in enumerate(older)}, me=m["data"])
+                pairs = fresh_calls([{"steps": [["o%d" % k, x["options"]], ["me", m["options"]]]} for k, x in enumerate(older)], docs2)
+                for x, pr in zip(older, pairs):
+                    if pr and not same(pr[1], exp):
+                        hist = [x, m]
+                        break
+            out.violation("the same bytes with the same options give another result after a sibling package was converted (the two share %s) than on their own: the result depends on what was converted earlier"
+                          % ("every part but one" if len(hist) == 2 else "parts"),
+                          {"kind": "history", "position": len(hist) - 1, "how": [h["how"] for h in hist][-6:],
+                           "history": [{"parts": h["parts"], "options": h["options"]} for h in hist[-40:]]}, expected=exp, actual=r)
+            stop = True
+            break
+        if stop:
+            break
+    return len(flat), calls
+
+
+# ---------------------------------------------------------------------------------------------------------------------
+# Deep documents: inputs whose outcome depends on how much stack the interpreter allows
+# ---------------------------------------------------------------------------------------------------------------------
+# The recursion limit is one setting for the whole process.  Whether a deeply nested document converts or raises
+# RecursionError is the only place where the library's result depends on it - and therefore the only place where a
+# conversion that touches the limit (or any code running concurrently that does) becomes visible in a RESULT.  Depths
+# are not guessed: for every kind of nesting the depth at which the outcome flips at the default limit is found by
+# bisection with the real code (fresh interpreters), and documents are taken on both sides of it; documents whose
+# outcome moves when the limit moves by +-10% are too close to the edge to be a function of the bytes alone (the
+# caller's own stack depth decides) and are left out.
+
+WRAPS = {
+    "table": ("<w:tbl><w:tr><w:tc>", "</w:tc></w:tr></w:tbl>", lambda inner: D_el("w:tbl", [D_el("w:tr", [D_el("w:tc", inner)])])),
+    "textbox": ("<w:p><w:r><w:pict><v:shape><v:textbox><w:txbxContent>", "</w:txbxContent></v:textbox></v:shape></w:pict></w:r></w:p>",
+                lambda inner: D_el("w:p", [D_el("w:r", [D_el("w:pict", [D_el("v:shape", [D_el("v:textbox", [D_el("w:txbxContent", inner)])])])])])),
+    "sdt": ("<w:sdt><w:sdtContent>", "</w:sdtContent></w:sdt>", lambda inner: D_el("w:sdt", [D_el("w:sdtContent", inner)])),
+    "altcontent": ("<mc:AlternateContent><mc:Fallback>", "</mc:Fallback></mc:AlternateContent>", lambda inner: D_el("mc:AlternateContent", [D_el("mc:Fallback", inner)])),
+    "table-in-sdt": ("<w:sdt><w:sdtContent><w:tbl><w:tr><w:tc>", "</w:tc></w:tr></w:tbl></w:sdtContent></w:sdt>",
+                     lambda inner: D_el("w:sdt", [D_el("w:sdtContent", [D_el("w:tbl", [D_el("w:tr", [D_el("w:tc", inner)])])])])),
+}
+
+
+def D_el(name, children):
+    return [name, [], list(children)]
+
+
+def deepen_package(parts, kind, depth):
+    """the package with the blocks of its body wrapped `depth` times in `kind`; the document part is serialised here
+    (one level through the materialiser, so that namespaces are declared, the other levels textually: the materialiser
+    is itself recursive) and carried as bytes"""
+    opening, closing, one = WRAPS[kind]
+    out = []
+    for p in parts:
+        if p["name"] == "word/document.xml" and "xml" in p:
+            doc = copy.deepcopy(p["xml"])
+            body = next(c for c in doc[2] if not isinstance(c, str) and c[0] == "w:body")
+            body[2] = [one(body[2])]
+            text = D.xml_to_bytes(doc).decode("utf-8")
+            i, j = text.index(opening), text.rindex(closing)
+            text = text[:i] + opening * depth + text[i + len(opening):j] + closing * depth + text[j + len(closing):]
+            out.append({"name": p["name"], "hex": text.encode("utf-8").hex()})
+        else:
+            out.append(p)
+    return out
+
+
+LADDER = [16, 32, 64, 128, 256, 512]
+
+
+def deep_documents(rng, pool, out, limit0):
+    """-> [doc]: doc = {"parts", "options", "data", "expected", "kind", "depth", "sensitive"}"""
+    hosts = [p for p in pool if p.get("model") is not None and not p["model"].get("err")
+             and any(q["name"] == "word/document.xml" and "xml" in q for q in p["parts"])]
+    if not hosts:
+        return []
+    hosts = sorted(hosts, key=lambda p: len(p["data"]))[: max(4, len(hosts) // 2)]      # (the smaller half: every level repeats nothing, but the calls are many)
+    host = {kind: rng.choice(hosts) for kind in sorted(WRAPS)}
+    docs = {}
+
+    def make(kind, depth):
+        parts = deepen_package(host[kind]["parts"], kind, depth)
+        c = {"parts": parts, "options": host[kind]["options"], "data": D.build_docx(parts), "kind": kind, "depth": depth, "key": str(len(docs))}
+        docs[c["key"]] = c["data"]
+        return c
+
+    def outcomes(cs, limits=(None,)):
+        res = fresh_calls([{"steps": [[c["key"], c["options"]]], "limit": l} for l in limits for c in cs], docs)
+        res = [r[0] if r else None for r in res]
+        return [res[k * len(cs):(k + 1) * len(cs)] for k in range(len(limits))]
+
+    def fails(r):
+        return r is None or r.get("err") is not None
+
+    # the depth at which the outcome flips at the default limit, per kind of nesting: a geometric ladder, then refined
+    rungs = [make(kind, d) for kind in sorted(WRAPS) for d in LADDER]
+    res = dict(zip([(c["kind"], c["depth"]) for c in rungs], outcomes(rungs)[0]))
+    bracket = {}
+    for kind in sorted(WRAPS):
+        bad = [d for d in LADDER if fails(res[(kind, d)])]
+        if bad and bad[0] != LADDER[0]:
+            bracket[kind] = (LADDER[LADDER.index(bad[0]) - 1], bad[0])
+    fine = [make(kind, lo + (hi - lo) * k // 8) for kind, (lo, hi) in sorted(bracket.items()) for k in range(1, 8)]
+    res2 = dict(zip([(c["kind"], c["depth"]) for c in fine], outcomes(fine)[0])) if fine else {}
+    flips, cands = {}, []
+    for kind, (lo, hi) in sorted(bracket.items()):
+        bad = sorted(d for (k, d), r in res2.items() if k == kind and fails(r))
+        flips[kind] = bad[0] if bad else hi
+        for f in (0.55, 0.7, 0.85, 1.15, 1.5):
+            cands.append(dict(make(kind, max(2, int(round(flips[kind] * f)))), flip=flips[kind]))
+    if not cands:
+        return []
+    low, base, high = outcomes(cands, (int(limit0 * 0.9), None, int(limit0 * 1.1)))
+    keep = []
+    for c, a, b, d in zip(cands, low, base, high):
+        if b is None or a != b or d != b:
+            continue                                    # at the edge (or the child died): not a function of the bytes alone
+        c["expected"] = b
+        c["sensitive"] = fails(b)                       # the same nesting, less deep, converts: the outcome is the limit's doing
+        keep.append(c)
+    out.extra["deep_documents"] = {"flip_depth_at_default_limit": flips, "candidates": len(cands), "kept": len(keep),
+                                   "limit_sensitive": sum(1 for c in keep if c["sensitive"]), "default_limit": limit0}
+    return keep
+
+
+def deep_case(c):
+    return {"parts": c["parts"], "options": c["options"], "nesting": c["kind"], "depth": c["depth"]}
+
+
+def run_deep_threads(out, rng, seed, tier, pool, deep, nthreads, ncalls, findings):
+    """deep and ordinary documents converted concurrently under a short switch interval, the main thread polling the
+    interpreter's settings meanwhile"""
+    if not deep:
+        return 0
+    ordinary = [p for p in pool if p.get("model") is not None][:60]
+    near = [c for c in deep if not c["sensitive"] and c["depth"] >= 0.65 * c["flip"]]
+    old_interval = sys.getswitchinterval()
+    sys.setswitchinterval(1e-4)
+    base = PS.polled()
+    bad, seen_state = [], []
+    lock = threading.Lock()
+
+    def worker(tid):
+        r2 = random.Random(seed * 1000 + 77 + tid)
+        for _ in range(ncalls):
+            if r2.random() < 0.7 or not ordinary:
+                # mostly the documents that still convert but need most of the stack they are allowed
+                c = r2.choice(near if (near and r2.random() < 0.7) else deep)
+                exp, case = c["expected"], deep_case(c)
+            else:
+                c = r2.choice(ordinary)
+                exp, case = c["model"], {"parts": c["parts"], "options": c["options"]}
+            r = result_of(c["data"], c["options"])
+            if not same(r, exp):
+                with lock:
+                    bad.append((case, exp, r))
+    ts = [threading.Thread(target=worker, args=(t,)) for t in range(nthreads)]
+    for t in ts:
+        t.start()
+    while any(t.is_alive() for t in ts):
+        f = PS.polled()
+        if f != base and not seen_state:
+            seen_state.append(f)
+        time.sleep(0.0005)
+    for t in ts:
+        t.join()
+    sys.setswitchinterval(old_interval)
+    out.count(key="deep-threads-%d" % seed, nontrivial=True)
+    if bad:
+        case, exp, r = bad[0]
+        out.violation("a conversion running concurrently with others returned another result than the same call on its own (%d of %d concurrent calls differ)" % (len(bad), nthreads * ncalls),
+                      dict(case, kind="threads", threads=nthreads, concurrent_with="conversions of other generated documents, nested and ordinary"), expected=exp, actual=r)
+    if seen_state:
+        findings.append(("while %d threads were converting, the interpreter-wide %s was seen changed (%r -> %r): concurrent conversions do not run in the environment they were started in"
+                         % (nthreads, " / ".join(n for n, x, y in zip(PS.POLLED_NAMES, base, seen_state[0]) if x != y), base, seen_state[0]),
+                         {"kind": "global-state-threads", "threads": nthreads}))
+    return nthreads * ncalls
+
+
+def run_watched(out, items, findings, every=1500):
+    """one conversion of each item under the profile hook: interpreter-wide settings must not move WHILE a conversion
+    runs (other threads would run in the changed environment, and two such conversions undo each other's restore)"""
+    n = 0
+    for it in items:
+        with PS.Watch(every=every) as w:
+            result_of(it["data"], it["options"])
+        n += 1
+        if w.seen and not any(k == "global-state-during" for _m, c in findings for k in [c.get("kind")]):
+            findings.append(("; ".join(w.seen)[:900] + ": shared interpreter state is changed for the duration of a conversion, so what a concurrent conversion (or any other thread) sees depends on this one",
+                             dict(it.get("case") or {"parts": it["parts"], "options": it["options"]}, kind="global-state-during")))
+    return n
+
+
+def state_check(findings, leads, before, what, docs_hint=None):
+    after = PS.snapshot(skip_prefixes=SKIP_MODULES)
+    changes, ld = PS.diff(before, after)
+    for l in ld:
+        if l not in leads:
+            leads.append(l)
+    if changes and not any(c.get("kind") == "global-state" for _m, c in findings):
+        findings.append(("shared state of the process is different after %s than before: %s" % (what, "; ".join(changes)[:900]), {"kind": "global-state", "after": what, "changes": changes[:20]}))
+    return after
+
+
+SKIP_MODULES = ("props", "apicheck", "cases", "docx", "common", "procstate", "shrink", "gen_docx", "gen_stylemap", "gen_html", "htmlobs", "__main__")
 
 
 def run(out, tier, seed, model_ok):
@@ -72,6 +535,10 @@ def run(out, tier, seed, model_ok):
     for p, m in zip(pool, models):
         p["model"] = None if (m is None or "error" in m) else {"value": m.get("value"), "messages": m.get("messages"), "err": m.get("err")}
     fp0 = default_map_fingerprint()
+    findings, leads = [], []          # observations of shared state: reported after the result comparisons
+    limit0 = sys.getrecursionlimit()
+    poller = PS.Poller().start()       # reads the interpreter's settings from another thread while the calls below run
+    st = PS.snapshot(skip_prefixes=SKIP_MODULES)
     # 1. histories: every call must give the model's answer for that call alone, whatever ran before
     nhist, hlen = (12, 120) if tier == "quick" else (60, 600)
     returned = []
@@ -85,6 +552,7 @@ def run(out, tier, seed, model_ok):
             p = pool[idx]
             digest0 = hashlib.sha1(p["data"]).hexdigest()
             f = io.BytesIO(p["data"])
+            poller.label = ("history", idx)
             r = result_of(p["data"], p["options"])
             out.count(key="hist-%d-%d-%d" % (seed, h, pos), nontrivial=idx in first)
             if hashlib.sha1(p["data"]).hexdigest() != digest0:
@@ -103,6 +571,7 @@ def run(out, tier, seed, model_ok):
             out.violation("a result already returned was changed by a later conversion", {"kind": "retained-result"})
     if default_map_fingerprint() != fp0:
         out.violation("the built-in style map was changed by conversions", {"kind": "default-map"}, expected=fp0[:300], actual=default_map_fingerprint()[:300])
+    st = state_check(findings, leads, st, "the histories of conversions")
     # 2. threads
     nthreads = 4 if tier == "quick" else 16
     errors = []
@@ -126,6 +595,57 @@ def run(out, tier, seed, model_ok):
         idx, r = errors[0]
         out.violation("a conversion running concurrently with others returned a different result", {"kind": "threads", "parts": pool[idx]["parts"], "options": pool[idx]["options"], "threads": nthreads},
                       expected=pool[idx]["model"], actual=r)
+    st = state_check(findings, leads, st, "conversions in %d concurrent threads" % nthreads)
+    poller.label = None
+    # 2b. families of packages sharing parts byte for byte, converted back to back in several orders
+    from common import deepen
+    rng2 = random.Random(seed * 7919 + 1515)
+    nfam = deepen(9 if tier == "quick" else 40)
+    t_f = time.time()
+    nmem, ncall = run_families(out, rng2, seed, tier, model_ok, nfam, earlier=pool)
+    st = state_check(findings, leads, st, "the histories of sibling packages")
+    if leads and not out.violations:
+        # module-level containers of the library changed while converting (a cache, a registry): the place where one call
+        # can reach into another one - more families, with other bases
+        out.extra["module_level_state_changed"] = leads[:10]
+        n2, c2 = run_families(out, random.Random(seed * 7919 + 1516), seed + 7777, tier, model_ok, 2 * nfam, earlier=pool)
+        nmem, ncall = nmem + n2, ncall + c2
+    t_f = time.time() - t_f
+    # 2c. documents nested deep enough for the outcome to depend on the interpreter's recursion limit: alone, and concurrently
+    t_d = time.time()
+    deep = deep_documents(rng2, pool, out, limit0)
+    for c in deep:
+        r = result_of(c["data"], c["options"])
+        out.count(key="deep-%d-%s-%d" % (seed, c["kind"], c["depth"]), nontrivial=c["sensitive"])
+        if not same(r, c["expected"]):
+            out.violation("a deeply nested document gives another result after other conversions in this process than on its own in a fresh interpreter",
+                          dict(deep_case(c), kind="deep-history"), expected=c["expected"], actual=r)
+            break
+    st = state_check(findings, leads, st, "conversions of deeply nested documents")
+    poller.stop()
+    ndeepcalls = 0
+    for rnd in range(deepen(2 if tier == "quick" else 8)):
+        if any(c.get("kind") == "threads" for k, v in out.violations for c in [v.get("case") or {}]):
+            break
+        ndeepcalls += run_deep_threads(out, rng2, seed * 31 + rnd, tier, pool, deep, nthreads, 30, findings)
+    poller.start()
+    st = state_check(findings, leads, st, "concurrent conversions of deeply nested and ordinary documents")
+    t_d = time.time() - t_d
+    # 2d. every distinct document once more under a profile hook that watches the interpreter's settings DURING the call
+    watched = rng2.sample(pool, min(len(pool), 30 if tier == "quick" else 300)) + [dict(c, case=deep_case(c)) for c in rng2.sample(deep, min(len(deep), 6))]
+    nwatched = run_watched(out, watched, findings)
+    st = state_check(findings, leads, st, "the watched conversions")
+    poller.stop()
+    if poller.seen and not any(c.get("kind") == "global-state-during" for _m, c in findings):
+        label, what = poller.seen[0]
+        case = {"kind": "global-state-during", "seen_by": "a thread polling the interpreter's settings while the conversions ran"}
+        if label and label[0] == "history":
+            case.update(parts=pool[label[1]]["parts"], options=pool[label[1]]["options"])
+        findings.append(("while a conversion ran, another thread saw the interpreter-wide %s: shared interpreter state is changed for the duration of a conversion" % what, case))
+    out.extra["state_polls"] = poller.polls
+    for msg, case in findings:
+        out.violation(msg, case)
+    out.extra["c15_phases"] = {"family_members": nmem, "family_calls": ncall, "family_s": round(t_f, 1), "deep_kept": len(deep), "deep_thread_calls": ndeepcalls, "deep_s": round(t_d, 1), "watched": nwatched}
     # 3. hash seeds: the same calls in fresh interpreters with different PYTHONHASHSEED
     spec = os.path.join(VERIF, "work", "c15_cases_%d.json" % os.getpid())
     sub = pool[: (15 if tier == "quick" else 60)]
@@ -161,6 +681,11 @@ def run(out, tier, seed, model_ok):
                 "alone (the model is a pure function); input bytes re-hashed after each call, retained results re-compared at the end, built-in style map fingerprinted; "
                 "%d threads converting concurrently; the same calls in fresh interpreters under %d PYTHONHASHSEED values; non-trivial = a repeated document in a history" %
                 (ndocs, nhist, hlen, nthreads, len(seeds)))
+    out.rule += ("; %d families (%d packages: a base, one-definition mutants of each of its parts, transplants of each part from another package, the donors) converted back to back (base first, the others shuffled, then the base and the others in reverse), "
+                 "each call compared with the model's answer and, on a difference, with the same call in a fresh interpreter (forked child that never converted anything); "
+                 "%d documents nested around the depth at which the outcome flips at the default recursion limit (found by bisection with the real code, edge cases discarded), converted alone and in %d concurrent calls "
+                 "under a 0.1 ms switch interval; interpreter-wide settings, module bindings and the library's module-level values compared before/after every phase, polled during the threaded runs, "
+                 "and watched by a profile hook during %d conversions" % (nfam, nmem, len(deep), ndeepcalls, nwatched))
     out.sample({"options": pool[0]["options"]})
 
 
@@ -182,3 +707,29 @@ def replay(out, payload, model_ok):
                            capture_output=True, text=True).stdout)
         if fresh != last:
             out.violation("the last call of the history differs from the same call in a fresh process", case, expected=fresh, actual=last)
+    elif case.get("kind") in ("threads", "deep-history", "global-state-during") and case.get("parts"):
+        data = D.build_docx(case["parts"])
+        alone = fresh_calls([{"steps": [["0", case["options"]]]}], {"0": data})[0]
+        alone = alone[0] if alone else None
+        if case["kind"] == "global-state-during":
+            with PS.Watch(every=200) as w:
+                result_of(data, case["options"])
+            if w.seen:
+                out.violation("; ".join(w.seen)[:900], case)
+            return
+        got = []
+
+        def worker():
+            for _ in range(25):
+                got.append(result_of(data, case["options"]))
+        ts = [threading.Thread(target=worker) for _ in range(case.get("threads", 1) if case["kind"] == "threads" else 1)]
+        old = sys.getswitchinterval()
+        sys.setswitchinterval(1e-4)
+        for t in ts:
+            t.start()
+        for t in ts:
+            t.join()
+        sys.setswitchinterval(old)
+        bad = [r for r in got if not same(r, alone)]
+        if bad:
+            out.violation("%d of %d conversions of this document (in %d threads at a time) differ from the same call in a fresh interpreter" % (len(bad), len(got), len(ts)), case, expected=alone, actual=bad[0])
